@@ -63,6 +63,18 @@ var alphabet = []alphaTok{
 	{"List", "List"},
 	{"Color::LIST", "Color::LIST"},
 	{"->default", "->default"},
+	// number spellings (separators, radix prefixes, degenerate forms): a number token's text must be
+	// the source text at its span however the lexer normalises the value
+	{"1_000", "1_000"},
+	{"0x1_F", "0x1_F"},
+	{"0b1_1", "0b1_1"},
+	{"01_7", "01_7"},
+	{"1_0.5_0", "1_0.5_0"},
+	{"1e1_0", "1e1_0"},
+	{".5", ".5"},
+	{"1.", "1."},
+	{"0x", "0x"},
+	{"1__0", "1__0"},
 }
 
 const nStress = 24 // the position-stress alphabet proper
@@ -427,7 +439,7 @@ func main() {
 	if len(outcomes) < 3 || tokens < 1000 || programs < 100 {
 		c.HarnessError("vacuous: outcomes=%d tokens=%d programs=%d", len(outcomes), tokens, programs)
 	}
-	c.Finish(inputs+programs, lexes+programs, inputs+programs, fmt.Sprintf("span clause: %d corpus files + their token-boundary prefixes + all strings of <= 3 tokens over the 33-symbol alphabet and of <= %d tokens over its 24 position-stress symbols (x2 joiners x4 lexing set-ups), every top-level token compared with the source text; location clause: fault kind x position x filler kind x mode", len(files), maxLen))
+	c.Finish(inputs+programs, lexes+programs, inputs+programs, fmt.Sprintf("span clause: %d corpus files + their token-boundary prefixes + all strings of <= 3 tokens over the whole alphabet (24 position-stress + 9 keyword-case + 10 number-spelling symbols) and of <= %d tokens over its 24 position-stress symbols (x2 joiners x4 lexing set-ups), every top-level token compared with the source text; location clause: fault kind x position x filler kind x mode", len(files), maxLen))
 }
 
 func replay(c *ev.Check) {
